@@ -17,3 +17,39 @@ package dbg
 //@ func (m *DbgMsgTx) Is1(statesIndex am.S, state string) (r bool)
 //@   props C16
 //@   ensures def: r <==> (index(statesIndex, state) != -1 && index(statesIndex, state) < len(m.Clocks) && odd(m.Clocks[index(statesIndex, state)]))
+
+// ---- C16: the tracer's anchor for queued-mutation records ----
+// Every traced transition that is reported (not a skipped check, tracer not
+// detached) becomes the anchor of the records of the mutations queued after it:
+// their ids are "<anchor id>-<n>" with n counting from 0, their clocks are the
+// anchor's time after.
+//@ func (t *Tracer) TransitionEnd(tx *am.Transition)
+//@   props C16
+//@   abstracts the outbox closure (sending the record), detaching after repeated send errors and argument mapping are not specified; whether a check transition is reported depends on the logger's Can setting (an interface call, opaque here), so the postcondition is the disjunction of the two outcomes
+//@   requires nn: t != nil && tx != nil && tx.MachApi != nil && tx.Mutation != nil && unlocked(t.mx) && unlocked(tx.InternalLogEntriesLock)
+//@   assigns *
+//@   ensures anchor: (t.lastTx == tx.Id && seqeq(t.lastMTime, tx.TimeAfter) && t.queued == 0) || unchanged(t.lastTx, t.lastMTime, t.queued)
+//@   ensures real:   !tx.Mutation.IsCheck && !t.exited ==> t.lastTx == tx.Id && seqeq(t.lastMTime, tx.TimeAfter) && t.queued == 0
+//@   ensures locks:  unlocked(t.mx) && unlocked(tx.InternalLogEntriesLock)
+
+// Log entries are copied with the machine-id prefix cut off; the copy has the
+// length of the original and no read leaves an entry's text.
+//@ func removeLogPrefix(mach am.Api, entries []*am.LogEntry) (r []*am.LogEntry)
+//@   props C16
+//@   requires nn: mach != nil
+//@   ensures len: len(r) == len(entries)
+//@   loop 1 invariant len: len(ret) == len(clone)
+
+// A queued-mutation record never moves the anchor; it takes the next ordinal.
+//@ func (t *Tracer) MutationQueued(mach am.Api, mut *am.Mutation)
+//@   props C16
+//@   abstracts the outbox closure (sending the record), stack-trace capture and argument mapping are not specified; whether a check mutation is reported depends on the logger's Can setting (opaque)
+//@   requires nn: t != nil && mach != nil && mut != nil && unlocked(t.mx)
+//@   assigns *
+//@   ensures anchor: unchanged(t.lastTx, t.lastMTime)
+//@   ensures ordinal: t.queued == old(t.queued) + 1 || (mut.IsCheck && t.queued == old(t.queued))
+//@   ensures real:   !mut.IsCheck ==> t.queued == old(t.queued) + 1
+//@   ensures locks:  unlocked(t.mx)
+//@ package github.com/pancsta/asyncmachine-go/internal/utils
+//@ func CaptureStackTrace() (r string)
+//@   trusted text of the calling goroutine's stack (runtime.Stack); reads nothing of the modelled state (result unconstrained)
